@@ -369,6 +369,33 @@ Section SerializeProof.
   Qed.
 End SerializeProof.
 
+(* B4: the temp-file registry: in every interleaving of registrations and cleanups a file that was
+   ever registered is still registered (the next cleanup takes it) or already gone -- never lost *)
+Section RegistryProof.
+  Definition reg_init (th0 : nat -> ath rstore bool) : Prop :=
+    forall j, Forall (fun b => exists o, b = rop_body o) (a_todo (th0 j)).
+  Definition reg_safe (s : rstore) : Prop :=
+    forall f, In f (r_ever s) -> In f (r_reg s) \/ ~ In f (r_disk s).
+
+  Lemma registry_lemma disk0 th0 log s :
+    reg_init th0 -> aexec (ainit ([], disk0, []) th0) log s -> a_hold s = None -> reg_safe (a_sh s).
+  Proof.
+    intros Hi Hex Hh. destruct (linearizable_lemma _ _ _ _ _ _ Hex Hh) as [Hs _]. rewrite Hs.
+    apply (seq_run_ind _ _ (fun c => (forall j, Forall (fun b => exists o, b = rop_body o) (a_todo (snd c j))) /\ reg_safe (fst c))).
+    - split; [exact Hi | intros f []].
+    - intros c i [Hf Hsafe]. unfold seq_step. destruct (a_todo (snd c i)) as [|b r] eqn:Et; [split; assumption|].
+      pose proof (Hf i) as Hfi. rewrite Et in Hfi. inversion Hfi as [|b' r' [o Hb] Hr]; subst b' r'. subst b.
+      destruct o as [f0|]; cbn [rop_body run_body fst snd]; split.
+      + intros j. destruct (Nat.eq_dec j i) as [->|Hj]; [rewrite upd_eq; exact Hr | rewrite upd_neq by exact Hj; apply Hf].
+      + intros f Hin. unfold r_ever, r_reg, r_disk in *. cbn [fst snd] in *. destruct Hin as [->|Hin]; [left; left; reflexivity|].
+        destruct (Hsafe f Hin) as [H1|H1]; [left; right; exact H1 | right; exact H1].
+      + intros j. destruct (Nat.eq_dec j i) as [->|Hj]; [rewrite upd_eq; exact Hr | rewrite upd_neq by exact Hj; apply Hf].
+      + intros f Hin. unfold r_ever, r_reg, r_disk in *. cbn [fst snd] in *. right. intros Hd.
+        apply filter_In in Hd. destruct Hd as [Hd Hm]. apply negb_true_iff in Hm. apply mem_nIn in Hm.
+        destruct (Hsafe f Hin) as [H1|H1]; contradiction.
+  Qed.
+End RegistryProof.
+
 (* B3: sync.Once: the body runs once, every caller that has returned reads the value it computed *)
 Section OnceProof.
   Variables A V : Type.
